@@ -4,14 +4,17 @@ import json, os
 ROOT = os.path.dirname(os.path.dirname(os.path.abspath(__file__)))
 plan = json.load(open(os.path.join(ROOT, "plan.json")))
 na = json.load(open(os.path.join(ROOT, "na.json")))
-cfg = json.load(open(os.path.join(ROOT, "kani", "config.json")))
+import sys
+sys.path.insert(0, os.path.join(ROOT, "tools"))
+import kani_run
+cfg = kani_run.load_config()
 ids = [json.loads(l)["id"] for l in open(os.path.join(ROOT, "properties.jsonl"))]
 checks = []
 for pid in ids:
     if pid not in plan["properties"] or plan["properties"][pid].get("hold"):
         continue
     pp = plan["properties"][pid]
-    hs = [h for h, i in cfg["harnesses"].items() if pid in i.get("props", [])]
+    hs = [h for h, i in cfg["harnesses"].items() if pid in i.get("props", []) and i.get("enabled", True)]
     complete = [h for h in hs if cfg["harnesses"][h].get("level") == "complete"]
     bounded = [h for h in hs if cfg["harnesses"][h].get("level") != "complete"]
     tech = []
